@@ -208,7 +208,7 @@ def _wtask(item):
     return st
 
 
-def explore_all(execute, cfgs, budget=None, workers=None, split_target=1536, selftest=48, progress=None):
+def explore_all(execute, cfgs, budget=None, workers=None, split_target=4096, selftest=48, progress=None):
     """Explore every configuration's whole choice tree. Returns (Stats, selftest_mismatches)."""
     workers = workers or int(os.environ.get("VERIF_WORKERS", "0")) or min(16, os.cpu_count() or 1)
     total = Stats()
@@ -233,6 +233,8 @@ def explore_all(execute, cfgs, budget=None, workers=None, split_target=1536, sel
     finally:
         sys.stdout.close()
         sys.stdout = real_stdout
+    # shallow prefixes root the biggest subtrees: start them first
+    items.sort(key=lambda it: len(it[1]))
     if items:
         if workers <= 1:
             _winit(execute, cfgs, budget)
